@@ -379,3 +379,34 @@ def gen_C20(tier, rng):
             yield (f"dig.{v} {ol} - 00", "ctor.blake2static")
         for kl in (0, 1, mx, mx + 1, 64, 65, 200):
             yield (f"mac.{v} {mx} 6b i00;k{hx(rng.rbytes(kl))};i00;R", "rekey.blake2mac")
+    # the `finished` / `computed` flags of the MAC objects: input, result and raw_result after a result are refused
+    # (HMAC and the BLAKE2 MACs alike), reset clears the flag; very large and zero-length buffers
+    for d in ALL:
+        H = out_of(d)
+        key = rng.rbytes(rng.choice([1, block_of(d), block_of(d) + 1]))
+        for first in ("R", "W", f"W{H}"):
+            for second in ("i00", "i-", "R", "W", f"W{H}", f"W{H - 1}", f"W{H + 1}", "W0", "W100000"):
+                yield (f"mac.hmac {d} {hx(key)} i616263;{first};{second}", "state.hmac.refuse")
+            for ok in ("r;i00;R", "r;R", "o;r;W"):
+                yield (f"mac.hmac {d} {hx(key)} i616263;{first};{ok}", "state.hmac.accept")
+        yield (f"mac.hmac {d} {hx(key)} W100000", "bufsize.hmac")
+        yield (f"dig.obj {d} W100000", "bufsize.digest")
+    for v, mx in (("blake2b", 64), ("blake2s", 32)):
+        for ol in (1, mx):
+            for first in ("R", "W", f"W{ol}"):
+                for second in ("i00", "i-", "R", "W", f"W{ol}", f"W{ol + 1}", "W0", "W100000", "r;i00;R", "k6b;i00;R"):
+                    kind = "state.blake2mac.accept" if second[0] in "rk" else "state.blake2mac.refuse"
+                    yield (f"mac.{v} {ol} 6b6579 i616263;{first};{second}", kind)
+    # `hkdf_expand` documents "prk … of at least digest.output_bytes() octets" but does not check it: a shorter PRK is
+    # accepted (used as the HMAC key) — recorded as what the code does, identically in every build profile
+    for d in ("sha256", "sha1", "sha512"):
+        H = out_of(d)
+        for pl in (0, 1, H - 1, H, H + 1):
+            yield (f"kdf.hkdf_expand {d} {hx(rng.rbytes(pl))} {hx(rng.rbytes(3))} {H + 1}", "accept.hkdf.prklen")
+        # iteration counts next to the refused 0; output lengths around one block
+        for c in (0, 1, 2):
+            for dk in (0, 1, H - 1, H, H + 1):
+                yield (f"kdf.pbkdf2 {d} 70 73 {c} {dk}", "limit.pbkdf2.c0" if c == 0 else "accept.pbkdf2")
+    # scrypt output length: 0 refused, 1 / 32 / 33 accepted (the upper limit (2^32-1)*32 cannot be allocated here)
+    for dk in (0, 1, 31, 32, 33):
+        yield (f"kdf.scrypt 70 73 2 1 1 {dk}", "limit.scrypt.dklen0" if dk == 0 else "accept.scrypt.dklen")
